@@ -133,6 +133,12 @@ func gossipChild(a gossipArg) (*syncSessResult, error) {
 				plan[st] = "silent"
 			}
 		}
+		if ann == "hash-orphans-then-valid" {
+			// requests for momentums are answered (that is how the orphans arrive), the synchronisation's hash requests are not
+			for _, st := range []string{"hashes-1", "hashes-2", "search-1", "search-2"} {
+				plan[st] = "silent"
+			}
+		}
 		remoteKey := newKey(r)
 		sr, err := newSyncRemoteAs(ws, src, plan, r, h, remoteKey) // announces the node's own height: no synchronisation is started
 		if err != nil {
@@ -152,6 +158,19 @@ func gossipChild(a gossipArg) (*syncSessResult, error) {
 			sr.send(7, M)
 		case "push-known":
 			sr.send(7, wire(h-3))
+		case "hash-orphans-then-valid":
+			sr.extra = map[types.Hash]*nom.DetailedMomentum{}
+			var hs []types.Hash
+			for k := 0; k < 64; k++ {
+				o := wire(h + 1)
+				o.Momentum.PreviousHash = types.NewHash([]byte(fmt.Sprint("no such predecessor", i, k, r.Int())))
+				o.Momentum.Hash = o.Momentum.ComputeHash()
+				sr.extra[o.Momentum.Hash] = o
+				hs = append(hs, o.Momentum.Hash)
+			}
+			sr.send(1, hs)
+			time.Sleep(3 * time.Second) // the arrival time-out, the node's requests, the answers, sixty-four imports given up
+			sr.send(7, M)
 		case "push-orphans-then-valid":
 			for k := 0; k < 64; k++ {
 				o := wire(h + 1)
@@ -330,8 +349,8 @@ func gossipCheck(run *core.Run) {
 func DebugGossip(seed int64, only string) string {
 	node.Quiet()
 	var bs []gossipBehaviour
-	for _, a := range []string{"push-valid", "push-bad-signature", "push-wrong-producer", "push-known", "hash-known", "push-orphans-then-valid"} {
-		bs = append(bs, gossipBehaviour{Steps: []gossipStep{{K: "announce", A: a, Has: a == "push-valid" || a == "push-orphans-then-valid"}}})
+	for _, a := range []string{"push-valid", "push-bad-signature", "push-wrong-producer", "push-known", "hash-known", "push-orphans-then-valid", "hash-orphans-then-valid"} {
+		bs = append(bs, gossipBehaviour{Steps: []gossipStep{{K: "announce", A: a, Has: a == "push-valid" || a == "push-orphans-then-valid" || a == "hash-orphans-then-valid"}}})
 	}
 	for _, a := range []string{"hash-valid", "hash-valid-twice", "hash-unknown", "hash-many"} {
 		for _, b := range []string{"correct", "unrequested", "tampered-signature", "garbage", "empty", "silent"} {
